@@ -712,7 +712,7 @@ def orn(ir, instr, a, b, c=None):
         b, c = a, b
     if c.is_op('rrx'):
         c, _ = compute_rrx_carry(c)
-    r = ~(b | c)
+    r = b | ~c
     e.append(ExprAssign(a, r))
     dst = get_dst(a)
     if dst is not None:
